@@ -224,6 +224,15 @@ def ref_match(rf, txn, rows, mode='first_match', transformed=False):
         sw = w if rf.rules[w].subcategory else None
     else:
         keys = {i: specificity_ref(rf.rules[i]) for i in cats}
+        # `weekday` is not among the constraint kinds the statement lists (amount, date, source, field); a reader may count it as none, one
+        # (its own kind) or two (it also is a "day"): when that choice would decide the ranking the case is outside the stated domain
+        wk = {i for i in cats if re.search(r'\bweekday\b', rf.rules[i].match, re.I)}
+        if wk:
+            def top(bonus):
+                kk = {i: (keys[i][0], keys[i][1], keys[i][2] + (bonus if i in wk else 0), keys[i][3]) for i in cats}
+                return [i for i in cats if kk[i] == max(kk.values())], [i for i in cats if rf.rules[i].subcategory and kk[i] == max(kk[j] for j in cats if rf.rules[j].subcategory)]
+            if len({repr(top(b)) for b in (0, 1, 2)}) > 1:
+                raise OutOfDomain('weekday as a constraint kind decides the ranking')
         best = max(keys.values())
         top = [i for i in cats if keys[i] == best]
         w = top[0]
